@@ -28,6 +28,9 @@ class C10Merge1D(Harness):
                         continue
                     yield f"amount-M{M}-gap{g}", dict(M=M, mode="amount", inplace=False, axis=None, gap=g, kind="real")
             yield f"fraction-M{M}", dict(M=M, mode="fraction", inplace=False, axis=0, gap=None, kind="int")
+            if M in (2, 3):
+                # contents replaced through the public `frequencies` setter (floats into a histogram created with integer contents)
+                yield f"amount-M{M}-setter-floats", dict(M=M, mode="amount", inplace=False, axis=None, gap=None, kind="real", via_setter=True)
             if M <= (3 if tier == "quick" else 4):
                 for inplace in (False, True):
                     yield f"minfreq-M{M}-i{int(inplace)}", dict(M=M, mode="minfreq", inplace=inplace, axis=None, gap=None, kind="real")
@@ -61,8 +64,13 @@ class C10Merge1D(Harness):
         H1 = E.mod("physt.histogram1d").Histogram1D
         SB = E.mod("physt.binnings").StaticBinning
         dt = int if p["kind"] == "int" else float
-        h = H1(SB([[l, r] for l, r in zip(x["l"], x["r"])]), np.asarray(x["f"], dtype=dt), np.asarray(x["q"], dtype=dt),
-               underflow=x["u"], overflow=x["o"], name="n", axis_name="ax")
+        if p.get("via_setter"):
+            h = H1(SB([[l, r] for l, r in zip(x["l"], x["r"])]), np.asarray([0] * p["M"], dtype=int), underflow=0, overflow=0, name="n", axis_name="ax")
+            h.frequencies = np.asarray(x["f"], dtype=float)
+            h.errors2 = np.asarray(x["q"], dtype=float)
+        else:
+            h = H1(SB([[l, r] for l, r in zip(x["l"], x["r"])]), np.asarray(x["f"], dtype=dt), np.asarray(x["q"], dtype=dt),
+                   underflow=x["u"], overflow=x["o"], name="n", axis_name="ax")
         before = snap1d(E, h)
         kw = {"inplace": p["inplace"]}
         if p["axis"] is not None:
@@ -90,7 +98,7 @@ class C10Merge1D(Harness):
         b = obs["before"]
         unchanged = lambda s: z3.And([cx.eq(s["freq"][j], f[j]) for j in range(M)] + [cx.eq(s["err2"][j], q[j]) for j in range(M)]  # noqa: E731
                                      + [cx.t(s["bins"][j][0]) == L[j] for j in range(M)] + [cx.t(s["bins"][j][1]) == R[j] for j in range(M)]
-                                     + [cx.eq(s["under"], cx.t(x["u"])), cx.eq(s["over"], cx.t(x["o"]))]) if len(s["freq"]) == M else z3.BoolVal(False)
+                                     + ([] if p.get("via_setter") else [cx.eq(s["under"], cx.t(x["u"])), cx.eq(s["over"], cx.t(x["o"]))])) if len(s["freq"]) == M else z3.BoolVal(False)
         if p["mode"] == "fraction":
             yield "fraction_refused", raised is not None and raised.name == "ValueError"
             yield "unchanged_after_refusal", unchanged(obs["after"])
@@ -134,9 +142,10 @@ class C10Merge1D(Harness):
             if k:
                 yield f"rising[{k}]", nl[k] >= nr[k - 1]
         yield "total_conserved", cx.eq(res["total"], zsum(f))
-        yield "missed_conserved", z3.And(cx.eq(res["under"], cx.t(x["u"])), cx.eq(res["over"], cx.t(x["o"])))
+        if not p.get("via_setter"):
+            yield "missed_conserved", z3.And(cx.eq(res["under"], cx.t(x["u"])), cx.eq(res["over"], cx.t(x["o"])))
+            yield "dtype_kept", res["dtype"] == b["dtype"] == res["fdtype"] == res["edtype"]
         yield "metadata_kept", obs["meta"] == ["n", "ax"]
-        yield "dtype_kept", res["dtype"] == b["dtype"] == res["fdtype"] == res["edtype"]
         if p["inplace"]:
             yield "inplace_returns_self", obs["same_object"] is True
         else:
